@@ -314,7 +314,7 @@ func (e *kvElection) attemptAcquire() error {
 	if err != nil {
 		log := e.getLogger()
 		log.Error("acquire_failed",
-			append(e.logWithContext(e.ctx),
+			append(e.logWithContext(e.electionContext()),
 				zap.Error(err),
 				zap.String("error_type", "marshal_error"),
 			)...,
@@ -336,7 +336,7 @@ func (e *kvElection) attemptAcquire() error {
 
 		log := e.getLogger()
 		log.Debug("acquire_failed",
-			append(e.logWithContext(e.ctx),
+			append(e.logWithContext(e.electionContext()),
 				zap.Error(err),
 				zap.String("error_type", classifyErrorType(err)),
 			)...,
@@ -348,7 +348,7 @@ func (e *kvElection) attemptAcquire() error {
 
 	log := e.getLogger()
 	log.Info("acquire_success",
-		append(e.logWithContext(e.ctx),
+		append(e.logWithContext(e.electionContext()),
 			zap.String("token", token),
 			zap.Uint64("revision", rev),
 		)...,
@@ -442,6 +442,16 @@ func (e *kvElection) becomeLeader(token string, rev uint64) {
 	}
 }
 
+// electionContext returns the election-wide context. e.ctx is written by
+// Start and StopWithContext under e.mu, so code that does not hold the mutex
+// reads it through this accessor. It is nil before Start and after a
+// completed StopWithContext.
+func (e *kvElection) electionContext() context.Context {
+	e.mu.RLock()
+	defer e.mu.RUnlock()
+	return e.ctx
+}
+
 // noteObservedLeader records another instance's claim as seen by a follower.
 // A leader's own view of the leader is only changed by its own transitions,
 // so an observation that races with a promotion is dropped.
@@ -483,7 +493,7 @@ func (e *kvElection) attemptPriorityTakeover(payloadBytes []byte) error {
 
 	log := e.getLogger()
 	log.Warn("priority_takeover_success",
-		append(e.logWithContext(e.ctx),
+		append(e.logWithContext(e.electionContext()),
 			zap.String("previous_leader", currentPayload.ID),
 			zap.Int("previous_priority", currentPayload.Priority),
 			zap.Int("our_priority", e.cfg.Priority),
@@ -576,6 +586,7 @@ func (e *kvElection) Stop() error {
 		return ErrAlreadyStopped
 	}
 
+	ctx := e.ctx
 	wasLeader := e.isLeader.Load()
 
 	currentState := StateInit
@@ -610,7 +621,7 @@ func (e *kvElection) Stop() error {
 
 	log := e.getLogger()
 	log.Info("election_stopped",
-		append(e.logWithContext(e.ctx),
+		append(e.logWithContext(ctx),
 			zap.Bool("was_leader", wasLeader),
 		)...,
 	)
@@ -636,7 +647,7 @@ func (e *kvElection) Stop() error {
 
 	if wasLeader && onDemote != nil {
 		log.Info("leader_demoted",
-			append(e.logWithContext(e.ctx),
+			append(e.logWithContext(ctx),
 				zap.String("reason", "stop"),
 			)...,
 		)
